@@ -17,7 +17,7 @@ import re
 
 from .. import sqlmini
 from ..callgraph import build, top_level_owner
-from ..flow import call_name, calls_in, mem_store_writes
+from ..flow import aliased_store_mutations, call_name, calls_in, mem_store_writes
 from ..loader import AnalysisError, ClassInfo, FuncInfo, walk_no_nested
 from ..report import VERIF, Context
 
@@ -68,6 +68,11 @@ def base_mutators(ctx: Context, spec: dict, comps: list[ClassInfo], sites) -> di
                     continue
                 # lazily initialised holder: `if self._x is None: self._x = ...` of a non-container
                 out.setdefault(m.qualname, (m.loc(w.node), f"writes self.{w.attr} ({w.how})"))
+            # store values mutated through a local alias (flow-sensitive reaching definitions)
+            for node, name, attr in aliased_store_mutations(m.node):
+                if attr in not_store:
+                    continue
+                out.setdefault(m.qualname, (m.loc(node), f"mutates self.{attr} through the local alias `{name}`"))
             # class-level registries: ClassName._registry[...] = ...
             for n in walk_no_nested(m.node):
                 if isinstance(n, (ast.Assign, ast.Delete)):
